@@ -317,6 +317,8 @@ void genConstraints(Case &c, bool witnessBuilt, const std::vector<double> &wx, c
     if (n < 2) return;
     int nc = irange(1, 9);
     std::set<int> aligned[2];
+    std::set<int> frUsed;          // nodes of fixed-relative groups: a node is in at most one group, and an alignment takes at most one of them
+                                   // (two equalities over the same pair of nodes are redundant equalities, documented as unsupported)
     std::vector<int> alignIdx[2];
     for (int k = 0; k < nc; k++) {
         CC x; x.dim = irange(0, 1);
@@ -329,7 +331,8 @@ void genConstraints(Case &c, bool witnessBuilt, const std::vector<double> &wx, c
             x.gap = witnessBuilt ? (x.eq ? W[x.r] - W[x.l] : W[x.r] - W[x.l] - irange(0, 30)) : irange(-20, 80);
         } else if (kind <= 5) {    // alignment
             x.kind = 1; double line = irange(0, 300); int q = irange(2, 4); std::set<int> used;
-            for (int j = 0; j < q; j++) { int i = irange(0, n - 1); if (used.count(i) || aligned[x.dim].count(i)) continue; used.insert(i); x.members.push_back({i, witnessBuilt ? W[i] - line : (double)irange(-20, 20)}); }
+            bool hasFr = false;
+            for (int j = 0; j < q; j++) { int i = irange(0, n - 1); if (used.count(i) || aligned[x.dim].count(i) || (hasFr && frUsed.count(i))) continue; if (frUsed.count(i)) hasFr = true; used.insert(i); x.members.push_back({i, witnessBuilt ? W[i] - line : (double)irange(-20, 20)}); }
             if (x.members.size() < 2) continue;
             for (auto &m : x.members) aligned[x.dim].insert(m.first);
             if (coin(1, 6)) { x.fixed = true; x.fixPos = witnessBuilt ? line : irange(0, 300); }
@@ -351,8 +354,10 @@ void genConstraints(Case &c, bool witnessBuilt, const std::vector<double> &wx, c
             if (x.kind == 3 && x.gap == 0 && !witnessBuilt) x.gap = 10;
         } else if (kind == 8) {    // fixed relative
             x.kind = 5; int q = irange(2, 3); std::set<int> used;
-            for (int j = 0; j < q; j++) { int i = irange(0, n - 1); if (!used.insert(i).second) continue; x.members.push_back({i, 0}); }
-            if (x.members.size() < 2 || witnessBuilt) continue;      // (a witness placement would have to keep the initial offsets)
+            int al[2] = {0, 0};
+            for (int j = 0; j < q; j++) { int i = irange(0, n - 1); if (frUsed.count(i) || !used.insert(i).second) continue; x.members.push_back({i, 0}); for (int dd = 0; dd < 2; dd++) if (aligned[dd].count(i)) al[dd]++; }
+            if (x.members.size() < 2 || witnessBuilt || al[0] >= 2 || al[1] >= 2) continue;      // (a witness placement would have to keep the initial offsets)
+            for (auto &m : x.members) frUsed.insert(m.first);
         } else continue;
         c.ccs.push_back(x);
     }
